@@ -62,6 +62,27 @@ def write_replay(pid, kind, payload):
     return path
 
 
+def _isolate_contracts():
+    """A function under contract that can no longer be located (renamed, moved into a class, rebound to something the extractor
+    does not follow) makes *that contract* undecided; the other contracts of the property are still generated."""
+    import functools
+    for mname, m in list(sys.modules.items()):
+        if not (mname.startswith('contracts.') or mname.startswith('lemmas.')):
+            continue
+        for n, f in list(vars(m).items()):
+            if n.startswith('vc_') and callable(f) and not getattr(f, '_kvc_isolated', False):
+                def make(f=f, n=n):
+                    @functools.wraps(f)
+                    def w(H, *a, **k):
+                        try:
+                            return f(H, *a, **k)
+                        except X.NotFound as e:
+                            H.out_of_subset.append((n, str(e)))
+                    w._kvc_isolated = True
+                    return w
+                setattr(m, n, make())
+
+
 def run_property(pid, tier='quick', seed=0, out=sys.stdout):
     t_start = time.time()
     mod = importlib.import_module(f'props.{pid}')
@@ -71,6 +92,7 @@ def run_property(pid, tier='quick', seed=0, out=sys.stdout):
     rng = random.Random(seed)
     faults = []
     # ------------------------------------------------------------------ 1. generate obligations from the real source
+    _isolate_contracts()
     try:
         mod.build(H, tier, seed)
     except X.NotFound as e:
